@@ -1127,9 +1127,24 @@ def dataframe_strategy(
 
         row_strategy = None
         if row_strategy_checks:
+            # the row strategy replaces the element strategies of the
+            # columns: chain the dataframe-level checks after the checks the
+            # column itself declares
             row_strategy = st.fixed_dictionaries(
                 {
-                    col_name: make_row_strategy(col, row_strategy_checks)
+                    col_name: make_row_strategy(
+                        col,
+                        [
+                            check
+                            for check in col.checks
+                            if check.strategy
+                            or STRATEGY_DISPATCHER.get(
+                                (check.name, pd.DataFrame), None
+                            )
+                            or check.element_wise
+                        ]
+                        + row_strategy_checks,
+                    )
                     for col_name, col in expanded_columns.items()
                 }
             )
